@@ -25,6 +25,49 @@
     ((d)->status == CARQUET_OK ==> (d)->nesting_level == __CPROVER_loop_entry((d)->nesting_level)) && \
     ((cqv_alloc_failed && !__CPROVER_loop_entry(cqv_alloc_failed)) ==> (d)->status != CARQUET_OK))
 
+
+/* loop contracts are compiled in only for the function under proof (see contracts/ptypes.ovl) */
+#ifdef CQV_FN_parse_statistics
+#define LC_parse_statistics(...) __VA_ARGS__
+#else
+#define LC_parse_statistics(...)
+#endif
+#ifdef CQV_FN_parse_logical_type
+#define LC_parse_logical_type(...) __VA_ARGS__
+#else
+#define LC_parse_logical_type(...)
+#endif
+#ifdef CQV_FN_parse_schema_element
+#define LC_parse_schema_element(...) __VA_ARGS__
+#else
+#define LC_parse_schema_element(...)
+#endif
+#ifdef CQV_FN_parse_column_metadata
+#define LC_parse_column_metadata(...) __VA_ARGS__
+#else
+#define LC_parse_column_metadata(...)
+#endif
+#ifdef CQV_FN_parse_column_chunk
+#define LC_parse_column_chunk(...) __VA_ARGS__
+#else
+#define LC_parse_column_chunk(...)
+#endif
+#ifdef CQV_FN_parse_row_group
+#define LC_parse_row_group(...) __VA_ARGS__
+#else
+#define LC_parse_row_group(...)
+#endif
+#ifdef CQV_FN_parquet_parse_file_metadata
+#define LC_parquet_parse_file_metadata(...) __VA_ARGS__
+#else
+#define LC_parquet_parse_file_metadata(...)
+#endif
+#ifdef CQV_FN_parquet_parse_page_header
+#define LC_parquet_parse_page_header(...) __VA_ARGS__
+#else
+#define LC_parquet_parse_page_header(...)
+#endif
+
 #include <stdlib.h>
 #include "src/thrift/parquet_types.c"
 
